@@ -385,6 +385,7 @@ impl<P: Property> Batch<P> {
                 // follows very deep (pipe world); that must not take the harness down
                 let builder = std::thread::Builder::new().name(format!("worker-{w}")).stack_size(BIG_STACK);
                 handles.push(builder.spawn_scoped(scope, move || {
+                    let slow_report = std::env::var_os("MINISIM_SLOW").is_some();
                     let mut agg = Aggregate::<P::S>::new();
                     loop {
                         let start = next.fetch_add(chunk, Ordering::Relaxed);
@@ -396,7 +397,12 @@ impl<P: Property> Batch<P> {
                             let s = me.scenario(index);
                             watch.slots[w].store(index + 1, Ordering::Release);
                             let mut obs = Obs::new();
+                            let t_run = std::time::Instant::now();
                             let r = run_guarded(&s, &mut obs);
+                            if slow_report && t_run.elapsed().as_millis() > 300 {
+                                // diagnostics only (stderr): never part of the trace
+                                eprintln!("slow run index={index} ms={} steps={}", t_run.elapsed().as_millis(), obs.steps);
+                            }
                             watch.slots[w].store(0, Ordering::Release);
                             agg.evaluations += 1;
                             if index < me.n_systematic() {
